@@ -88,6 +88,13 @@ func EntityType(entity any) string {
 	if entity == nil {
 		return "nil"
 	}
+	// A nil pointer (the zero value of a pointer entity type, which is what the
+	// helper constructors and NewTypedCollection pass) still satisfies TypeNamer;
+	// calling a value-receiver StateTypeName on it would panic. Ask a pointer to a
+	// zero value instead.
+	if v := reflect.ValueOf(entity); v.Kind() == reflect.Ptr && v.IsNil() {
+		entity = reflect.New(v.Type().Elem()).Interface()
+	}
 	if namer, ok := entity.(TypeNamer); ok {
 		return namer.StateTypeName()
 	}
